@@ -150,10 +150,76 @@ class BitEval:
                     for i in range(w):
                         t_, f_ = (c_true >> i) & 1, (c_false >> i) & 1
                         out.append(t_ if t_ == f_ else (cb[0] if (t_, f_) == (1, 0) else None))
+        if out is None and w and len(ds) >= 2:
+            out = self._conditional_or(l, ds, w)
         if out is None and w:
             # an opaque value: every bit is "bit i of that value" (named by its description, so two uses of one value agree)
             out = self.opaque(core.describe(self.prog, self.b, l), w)
         self.memo[l] = out
+        return out
+
+    def _conditional_or(self, l, ds, w):
+        """`let mut x = base; if a { x |= C1 } if b { x |= C2 } ..` read after all of it: bit i of x is base_i, or — where base_i is 0 and
+        exactly one C sets it — the flag under which that `|=` runs.  Requires: one plain definition, every other definition `x = x | const`
+        under the true edge of a 1-bit value, no definition inside a cycle, and no read of x (other than those `|=`) before a later definition."""
+        b = self.b
+
+        def self_or(d):
+            if d[2] != "assign" or d[3]["pl"]["p"]:
+                return None
+            rv = d[3]["rv"]
+            if rv["k"] != "bin" or rv["op"] != "BitOr":
+                return None
+            for me, other in ((rv["l"], rv["r"]), (rv["r"], rv["l"])):
+                if core.op_local(me) == l and not me["pl"]["p"] and other.get("k") == "const" and isinstance(other.get("v"), int) and not isinstance(other.get("v"), bool):
+                    return other["v"]
+            return None
+        ors = [(d, self_or(d)) for d in ds if self_or(d) is not None]
+        base = [d for d in ds if self_or(d) is None]
+        if len(base) != 1 or not ors or base[0][2] != "assign" or base[0][3]["pl"]["p"]:
+            return None
+        def_blocks = [d[0] for d in ds]
+        for db in def_blocks:
+            if db in b.reachable(b.succs(db)):
+                return None
+
+        def reads(x):
+            if isinstance(x, dict):
+                if x.get("k") in ("copy", "move") and x.get("pl", {}).get("l") == l:
+                    return True
+                if x.get("k") in ("ref", "rawptr", "discr", "len") and x.get("pl", {}).get("l") == l:
+                    return True
+                return any(reads(v) for k_, v in x.items() if k_ not in ("pl", "dest") or x.get("k") in ("ref", "rawptr", "discr", "len"))
+            if isinstance(x, list):
+                return any(reads(v) for v in x)
+            return False
+        or_stmts = [id(d[3]) for d, _ in ors]
+        for bi, blk in enumerate(b.blocks):
+            rd = any(reads(st.get("rv")) for st in blk["stmts"] if "rv" in st and id(st) not in or_stmts) or \
+                (blk["term"] is not None and reads({k_: v for k_, v in blk["term"].items() if k_ in ("args", "discr", "cond", "value", "fn_operand")}))
+            if rd:
+                after = b.reachable(b.succs(bi))
+                if any(db in after for db in def_blocks) or (bi in def_blocks and bi != base[0][0]):
+                    return None
+        out = self.rvalue(base[0][3]["rv"], w)
+        if out is None:
+            return None
+        out = (out + [0] * w)[:w]
+        base_guards = {(s_, lab) for s_, lab, dd, info in core.guards_dominating(self.prog, b, base[0][0])}
+        for d, c in ors:
+            own = [(s_, lab) for s_, lab, dd, info in core.guards_dominating(self.prog, b, d[0]) if (s_, lab) not in base_guards and lab in ("true", "false") and isinstance(s_, int)]
+            if len(own) != 1 or own[0][1] != "true":
+                return None
+            t = b.term(own[0][0])
+            cl = core.op_local(t["discr"]) if t and t.get("discr") is not None else None
+            cb = self.local(cl) if cl is not None else None
+            if cb is None or cb[0] in (0, 1, None):
+                return None
+            for i in range(w):
+                if (c >> i) & 1:
+                    if out[i] != 0:
+                        return None
+                    out[i] = cb[0]
         return out
 
     def rvalue(self, rv, w):
